@@ -34,9 +34,10 @@ Section Oracles.
   Notation m_words := (match_words resolve1 resolve2 home).
   Notation rrm := (redirect_rule_matches resolve1 resolve2 home).
 
-  (* the code's _normalize_path computes the normal form of every path-shaped target:
-     pathlike p = the target, with trailing slashes removed, is non-empty and is not classified
-     as URL ("://" inside), variable ("$" first) or ~user *)
+  (* the code's _normalize_path computes the normal form of every target except the two shapes
+     bash itself rewrites before opening the file: pathlike p = the target (trailing slashes
+     removed, "/" kept) does not start with "$" (variable) or "~user".  Since the repair 67c5613
+     "://" inside a target and the target "/" are covered. *)
   Theorem C09_normalize_path : forall cwd p, pathlike p = true ->
     normalize_path resolve1 resolve2 home cwd p = nf home cwd p.
   Proof. exact (normalize_path_nf resolve1 resolve2 home lex). Qed.
@@ -68,7 +69,7 @@ Section Oracles.
   (* confinement: a rule D/** matches a target only if the target's normal form lies under the
      normal form of D (hence segs_of D is a prefix of the target's segments) *)
   Theorem C09_confine_rule : forall cwd D r t,
-    r_pat r = D ++ slash_star2 -> pathlike D = true -> no_glob D = true ->
+    r_pat r = D ++ slash_star2 -> nonempty (rstrip [c_slash] D) = true -> pathlike D = true -> no_glob D = true ->
     no_glob (nf home cwd D) = true -> pathlike t = true ->
     rrm cwd t r = true ->
     exists rest, nf home cwd t = nf home cwd D ++ c_slash :: rest.
@@ -123,28 +124,41 @@ Theorem C09_glob_cwd_refuted :
 Proof. exact (conj glob_cwd_redirect glob_cwd_words). Qed.
 Print Assumptions C09_glob_cwd_refuted.
 
-(* 2. a target containing "://" is classified as a URL and never resolved: /t/u://../../etc/passwd
-      (= /etc/passwd) is matched by allow-redirect /t/**, its respelling /t/u:/../../etc/passwd is not *)
-Theorem C09_url_target_refuted :
-  match_redirect lex1 lex2 $"/home/u" [rule_t] $"/w" $"/t/u://../../etc/passwd" = Some rule_t /\
+(* 2. and 3. were refutations before the repair 67c5613; they are theorems now (instances of
+   C09_normalize_path / C09_verdict), shown on the former witnesses, with the pre-repair behaviour
+   kept as Legacy so that its reappearance is recognised by the correspondence *)
+Theorem C09_url_target : 
+  match_redirect lex1 lex2 $"/home/u" [rule_t] $"/w" $"/t/u://../../etc/passwd" = None /\
+  match_redirect lex1 lex2 $"/home/u" [rule_t] $"/w" $"/t/u:/../../etc/passwd" = None /\
+  match_redirect lex1 lex2 $"/home/u" [rule_t] $"/w" $"/t/u://x" = Some rule_t /\
+  pathlike $"/t/u://../../etc/passwd" = true.
+Proof. exact url_target_resolved. Qed.
+Print Assumptions C09_url_target.
+Theorem C09_root_target :
+  match_redirect lex1 lex2 $"/home/u" [rule_dot] $"/w" $"/" = None /\
+  match_redirect lex1 lex2 $"/home/u" [rule_dot] $"/w" $"/." = None /\
+  normalize_path lex1 lex2 $"/home/u" $"/w" $"//" = $"/" /\ pathlike $"/" = true /\ pathlike [] = true.
+Proof. exact root_target_is_root. Qed.
+Print Assumptions C09_root_target.
+Theorem C09_legacy_url_target_refuted :
+  legacy_normalize_path lex1 lex2 $"/home/u" $"/w" $"/t/u://../../etc/passwd" = $"/t/u://../../etc/passwd" /\
   nf $"/home/u" $"/w" $"/t/u://../../etc/passwd" = $"/etc/passwd" /\
-  match_redirect lex1 lex2 $"/home/u" [rule_t] $"/w" $"/t/u:/../../etc/passwd" = None.
-Proof. exact url_target_escapes. Qed.
-Print Assumptions C09_url_target_refuted.
-
-(* 3. the target "/" is read as the working directory *)
-Theorem C09_root_target_refuted :
-  match_redirect lex1 lex2 $"/home/u" [rule_dot] $"/w" $"/" = Some rule_dot /\
-  match_redirect lex1 lex2 $"/home/u" [rule_dot] $"/w" $"/." = None.
-Proof. exact root_target_is_cwd. Qed.
-Print Assumptions C09_root_target_refuted.
+  glob_match $"/t/u://../../etc/passwd" $"/t/**" = G2 true.
+Proof. exact legacy_url_target. Qed.
+Print Assumptions C09_legacy_url_target_refuted.
+Theorem C09_legacy_root_target_refuted :
+  legacy_normalize_path lex1 lex2 $"/home/u" $"/w" $"/" = $"/w" /\
+  legacy_normalize_path lex1 lex2 $"/home/u" $"/w" $"/." = $"/".
+Proof. exact legacy_root_target. Qed.
+Print Assumptions C09_legacy_root_target_refuted.
 
 (* non-vacuity *)
 Example C09_example_lexical : lexical lex1 lex2.
 Proof. exact lex_lexical. Qed.
 Example C09_example_respell :
   nf $"/home/u" $"/w/p" $"./a//b/../c/" = $"/w/p/a/c" /\ nf $"/home/u" $"/w/p" $"~/x/./y" = $"/home/u/x/y" /\
-  nf $"/home/u" $"/w/p" $"../../../.." = $"/" /\ pathlike $"./a//b/../c/" = true /\ pathlike $"x://y" = false.
+  nf $"/home/u" $"/w/p" $"../../../.." = $"/" /\ pathlike $"./a//b/../c/" = true /\ pathlike $"x://y" = true /\ pathlike $"$x/y" = false /\
+  pathkind true $"x://y" = false.
 Proof. vm_compute. repeat split; reflexivity. Qed.
 Example C09_example_confine :
   let r := mkRule Allow $"out/**" None false [] in
